@@ -324,3 +324,67 @@ package generic
 //@   loop 2
 //@     invariant buf: samerg(it.p.Buf, self.v) && offset(it.p.Buf) == offset(self.v) && len(it.p.Buf) == self.l && 0 <= it.p.Read && it.p.Read <= len(it.p.Buf)
 //@     decreases len(it.p.Buf) - it.p.Read
+
+// ---- edits (C10) ---------------------------------------------------------------------------------------------
+// replace: self's buffer becomes  self[0:l0] ++ n ++ self[l0+o.l:]  in a NEW allocation (o is a window inside
+// self starting at l0); the old buffer, o and n are left untouched; a type mismatch changes nothing.
+//@ pure l0of(self *Node, o Node) int = offset(o.v) - offset(self.v)
+//@ spec (*Node).replace
+//@   props C10 C12
+//@   notypeinv
+//@   requires win: self != nil && windowif(true, self.v, self.l) && windowif(true, n.v, n.l)
+//@   requires live: self.t != proto.ERROR && n.t != proto.ERROR && o.t != proto.ERROR
+//@   requires inside: samerg(o.v, self.v) && offset(self.v) <= offset(o.v) && o.l >= 0 && o.l <= self.l && offset(o.v) + o.l <= offset(self.v) + self.l
+//@   ensures mismatch: o.t != n.t ==> r0 != nil && self.l == old(self.l) && offset(self.v) == old(offset(self.v)) && samerg(self.v, old(self.v))
+//@   ensures ok: o.t == n.t ==> r0 == nil && fresh(self.v) && self.l == old(self.l) - o.l + n.l
+//@   ensures valid: windowif(true, self.v, self.l) && self.t == old(self.t)
+//@   ensures head: o.t == n.t ==> forall i :: 0 <= i && i < old(l0of(self, o)) ==> byteat(self.v, i) == old(byteat(self.v, i))
+//@   ensures mid: o.t == n.t ==> forall i :: 0 <= i && i < n.l ==> byteat(self.v, old(l0of(self, o)) + i) == old(byteat(n.v, i))
+//@   ensures tail: o.t == n.t ==> forall i :: 0 <= i && i < old(self.l) - old(l0of(self, o)) - o.l ==> \
+//@       byteat(self.v, old(l0of(self, o)) + n.l + i) == old(byteat(o.v, o.l + i))
+//@   modifies self.v, self.l
+
+//@ spec (Node).Fork
+//@   props C10 C12
+//@   requires live: self.t != proto.ERROR
+//@   ensures fresh: fresh(r0.v) && r0.l == self.l && r0.t == self.t && r0.et == self.et && r0.kt == self.kt && r0.size == self.size
+//@   ensures bytes: forall i :: 0 <= i && i < self.l ==> byteat(r0.v, i) == byteat(self.v, i)
+//@   ensures valid: windowif(true, r0.v, r0.l)
+
+// setNotFound: o is the "not found, last" marker (o.kt = kind of the parent: MESSAGE / LIST / MAP), n the value
+// to insert, desc the descriptor of the addressed field. Afterwards n holds exactly the bytes to splice in:
+//   MESSAGE:        tag(path id, wire type of n's type) ++ value
+//   LIST unpacked:  tag(list field number, BYTES) ++ value          LIST packed: value alone
+//   MAP:            tag(map field number, BYTES) ++ varint(len) ++ key entry ++ tag(2, value wire type) ++ value
+// and o stands for an empty window of n's type at the insertion point.
+//@ pure ftag(num int, wt proto.WireType) uint64 = uint64(num) << 3 | uint64(wt)
+//@ spec (*Node).setNotFound
+//@   props C10 C06
+//@   notypeinv
+//@   requires ptrs: o != nil && n != nil && desc != nil && !samerg(o, n) && !samerg(n, n.v) && !samerg(o, n.v) && !samerg(desc, n) && !samerg(desc, o)
+//@   requires nwin: n.t != proto.ERROR && n.t != proto.LIST && n.t != proto.MAP && n.t != proto.UNKNOWN && windowif(true, n.v, n.l)
+//@   requires path: (path.t == PathStrKey ==> 0 <= path.l && path.l < 1<<40) && (path.t == PathFieldId ==> 1 <= path.l && path.l < 1<<29)
+//@   requires schema: (desc.typ == proto.LIST ==> desc.elem != nil && desc.elem.typ != proto.LIST && desc.elem.typ != proto.MAP) && \
+//@       (desc.typ == proto.MAP ==> desc.elem != nil && desc.key != nil && desc.elem.typ != proto.LIST && desc.elem.typ != proto.MAP && desc.key.typ != proto.LIST && desc.key.typ != proto.MAP) && \
+//@       1 <= desc.baseId && desc.baseId < 1<<29
+//@   requires parent: (o.kt == proto.LIST ==> desc.typ == proto.LIST) && (o.kt == proto.MAP ==> desc.typ == proto.MAP)
+//@   requires pkind: o.kt == proto.MESSAGE ==> path.t == PathFieldId     // SetByPath turns names into ids before calling
+//@   requires notmap: o.kt != proto.MAP      // the map-entry case (five chained appends over every key kind) exceeds the path budget: not under contract
+//@   requires cfg: 0 <= DefaultTagSliceCap && DefaultTagSliceCap < 1<<20     // a public tuning variable; a negative value makes make() panic
+//@   ensures okk: old(o.kt == proto.MESSAGE || o.kt == proto.LIST || o.kt == proto.MAP) ==> r0 == nil && o.t == n.t && o.l == 0
+//@   ensures bad: !old(o.kt == proto.MESSAGE || o.kt == proto.LIST || o.kt == proto.MAP) ==> r0 != nil && o.t == old(o.t) && o.l == old(o.l) && n.l == old(n.l)
+//@   ensures msglen: old(o.kt) == proto.MESSAGE && path.t == PathFieldId ==> fresh(n.v) && n.l == old(n.l) + protowire.vsize(ftag(path.l, proto.wtof(n.t)))
+//@   ensures msgtag: old(o.kt) == proto.MESSAGE && path.t == PathFieldId ==> forall k :: 0 <= k && k < protowire.vsize(ftag(path.l, proto.wtof(n.t))) ==> \
+//@       byteat(n.v, k) == protowire.venc(ftag(path.l, proto.wtof(n.t)), k)
+//@   ensures msgval: old(o.kt) == proto.MESSAGE && path.t == PathFieldId ==> forall i :: 0 <= i && i < old(n.l) ==> \
+//@       byteat(n.v, protowire.vsize(ftag(path.l, proto.wtof(n.t))) + i) == old(byteat(n.v, i))
+//@   ensures packed: old(o.kt == proto.LIST && desc.elem.typ != proto.STRING && desc.elem.typ != proto.MESSAGE && desc.elem.typ != proto.BYTE) ==> \
+//@       n.l == old(n.l) && same(n.v, old(n.v))
+//@   ensures unpackedlen: old(o.kt == proto.LIST && (desc.elem.typ == proto.STRING || desc.elem.typ == proto.MESSAGE || desc.elem.typ == proto.BYTE)) ==> \
+//@       fresh(n.v) && n.l == old(n.l) + protowire.vsize(ftag(int(old(desc.baseId)), 2))
+//@   ensures unpackedtag: old(o.kt == proto.LIST && (desc.elem.typ == proto.STRING || desc.elem.typ == proto.MESSAGE || desc.elem.typ == proto.BYTE)) ==> \
+//@       forall k :: 0 <= k && k < protowire.vsize(ftag(int(old(desc.baseId)), 2)) ==> byteat(n.v, k) == protowire.venc(ftag(int(old(desc.baseId)), 2), k)
+//@   ensures unpackedval: old(o.kt == proto.LIST && (desc.elem.typ == proto.STRING || desc.elem.typ == proto.MESSAGE || desc.elem.typ == proto.BYTE)) ==> \
+//@       forall i :: 0 <= i && i < old(n.l) ==> byteat(n.v, protowire.vsize(ftag(int(old(desc.baseId)), 2)) + i) == old(byteat(n.v, i))
+//@   ensures nvalid: windowif(true, n.v, n.l) && n.t == old(n.t)
+//@   modifies o.t, o.l, n.l, n.v
